@@ -21,12 +21,12 @@ TIERS = {
 
 def model(c, lens, depth, whole, emit, name):
     mod = os.path.join(c.work, "MC_Transport.tla")
-    with open("/verif/spec/mc/MC_Transport.tla") as f:
+    with open(common.VERIF + "/spec/mc/MC_Transport.tla") as f:
         text = f.read().replace("Lens == <<13, 34, 20>>", "Lens == <<%s>>" % ", ".join(str(x) for x in lens))
     with open(mod, "w") as f:
         f.write(text)
     cfg = os.path.join(c.work, name + ".cfg")
-    with open("/verif/spec/mc/MC_Transport.cfg") as f:
+    with open(common.VERIF + "/spec/mc/MC_Transport.cfg") as f:
         t = f.read().replace("MaxDepth = 2", "MaxDepth = %d" % depth)
     if whole:
         t = t.replace("WholeBuffer = FALSE", "WholeBuffer = TRUE")
